@@ -40,10 +40,6 @@ type embeddedFieldPtrDecoder struct {
 
 // Pointer Value is allocated in the Caller
 func (d *embeddedFieldPtrDecoder) FromDom(vp unsafe.Pointer, node Node, ctx *context) error {
-	if node.IsNull() {
-		return nil
-	}
-
 	// seek into the pointer
 	vp = unsafe.Pointer(uintptr(vp) - uintptr(d.field.Path[0].Size))
 	for _, f := range d.field.Path {
